@@ -22,7 +22,7 @@ CLAUSES = {
 FUNCTIONS = ["BaseTaskPool.get_group_ids", "TaskPool._generate_group_name", "TaskPool.apply", "TaskPool._map",
              "SimpleTaskPool.start", "BaseTaskPool._start_task", "TaskGroupRegister.add"]
 
-VOCAB = ("x", "apply-fa-group-0", "map-fa-group-1", "starmap-fb-group-0")
+VOCAB = ("", "apply-fa-group-0", "map-fa-group-1", "x")
 OPS = ("apply_u_fa", "apply_u_fb", "apply_named", "map_u_fa", "map_named", "starmap_u_fb", "dstarmap_u_fa", "cgroup", "rel", "flush", "nop")
 NOP = len(OPS) - 1
 
